@@ -108,6 +108,31 @@ pub struct Expect {
     pub dynamic_bytes: Vec<u8>,
 }
 
+/// Anything the linker data can be laid out in (the live arena or a plain buffer
+/// that becomes the content of a mapping at address `ARENA`).
+pub trait ArenaLike {
+    fn bytes(&mut self) -> &mut [u8];
+    fn write(&mut self, off: u64, data: &[u8]) {
+        let off = off as usize;
+        let n = self.bytes().len();
+        let end = (off + data.len()).min(n);
+        if off < end {
+            self.bytes()[off..end].copy_from_slice(&data[..end - off]);
+        }
+    }
+}
+impl ArenaLike for Arena {
+    fn bytes(&mut self) -> &mut [u8] {
+        Arena::bytes(self)
+    }
+}
+pub struct BufArena(pub Vec<u8>);
+impl ArenaLike for BufArena {
+    fn bytes(&mut self) -> &mut [u8] {
+        &mut self.0
+    }
+}
+
 fn place(p: &Place, normal: u64, need: u64) -> u64 {
     match p {
         Place::Normal => ARENA + normal,
@@ -120,7 +145,7 @@ fn place(p: &Place, normal: u64, need: u64) -> u64 {
 }
 
 /// Lays the case out in the arena.  Returns (phnum, phdr address, expectation).
-pub fn lay_out(c: &DsoCase, a: &mut Arena) -> (u64, u64, Expect) {
+pub fn lay_out(c: &DsoCase, a: &mut dyn ArenaLike) -> (u64, u64, Expect) {
     let fill = c.fill;
     for b in a.bytes().iter_mut() {
         *b = fill;
@@ -367,4 +392,68 @@ pub fn dso_strategy() -> impl Strategy<Value = DsoCase> {
         .prop_map(|((phnum, phdr_at, extra_phdrs, has_load, load_vaddr, has_dynamic, dyn_at), (extra_dyns, has_debug, dyn_null, rdebug_at, r_version, r_brk, r_state, r_ldbase), chain, chain_end, fill)| DsoCase {
             phnum, phdr_at, extra_phdrs, has_load, load_vaddr, has_dynamic, dyn_at, extra_dyns, has_debug, dyn_null, rdebug_at, r_version, r_brk, r_state, r_ldbase, chain, chain_end, fill,
         })
+}
+
+/// Mostly intact linker data (for the semantic oracle of C18).
+pub fn valid_dso_strategy() -> impl Strategy<Value = DsoCase> {
+    (
+        0u8..6,
+        any::<bool>(),
+        proptest::collection::vec((1u64..40, any::<u64>()), 0..8),
+        any::<bool>(),
+        (any::<i32>(), any::<u64>(), any::<u32>(), any::<u64>()),
+        proptest::collection::vec(
+            (any::<u64>(), any::<u64>(), prop_oneof![1 => Just(LName::None), 6 => proptest::collection::vec(prop_oneof![(0x20u8..0x7f).prop_map(|c| c as char), Just('\u{e9}'), Just('\u{4e2d}')], 0..60).prop_map(|v| LName::Utf8(v.into_iter().collect())), 1 => Just(LName::Utf8("y".repeat(255)))]).prop_map(|(l_addr, l_ld, name)| Link { l_addr, l_ld, name }),
+            0..13,
+        ),
+        prop_oneof![3 => Just(0u8), 1 => 1u8..=255],
+    )
+        .prop_map(|(extra_phdrs, has_load, extra_dyns, dyn_null, (r_version, r_brk, r_state, r_ldbase), chain, fill)| DsoCase {
+            phnum: Phnum::True,
+            phdr_at: Place::Normal,
+            extra_phdrs,
+            has_load,
+            load_vaddr: LoadVaddr::Zero,
+            has_dynamic: true,
+            dyn_at: Place::Normal,
+            extra_dyns,
+            has_debug: true,
+            dyn_null: dyn_null || fill != 0,
+            rdebug_at: Place::Normal,
+            r_version,
+            r_brk,
+            r_state,
+            r_ldbase,
+            chain,
+            chain_end: ChainEnd::Null,
+            fill,
+        })
+}
+
+/// Compares a decoded DSO stream with the expectation; returns (signature, detail).
+pub fn compare(e: &Expect, d: &super::md::Dso) -> Option<(String, String)> {
+    if d.count as usize != e.links.len() || d.links.len() != e.links.len() {
+        return Some(("dso-count".into(), format!("stream lists {} objects, the linker list has {}", d.count, e.links.len())));
+    }
+    for (i, ((a, n, l), (ga, gn, gl))) in e.links.iter().zip(d.links.iter()).enumerate() {
+        if a != ga {
+            return Some(("load-address".into(), format!("object {i}: addr {ga:#x}, linker list says {a:#x}")));
+        }
+        if l != gl {
+            return Some(("dynamic-address".into(), format!("object {i}: ld {gl:#x}, linker list says {l:#x}")));
+        }
+        if Some(n) != gn.as_ref() {
+            return Some(("name".into(), format!("object {i}: name {gn:?}, linker list says {n:?}")));
+        }
+    }
+    if d.version != e.version || d.brk != e.brk || d.ldbase != e.ldbase {
+        return Some(("r_debug-fields".into(), format!("version/brk/ldbase {:#x}/{:#x}/{:#x} expected {:#x}/{:#x}/{:#x}", d.version, d.brk, d.ldbase, e.version, e.brk, e.ldbase)));
+    }
+    if d.dynamic != e.dynamic {
+        return Some(("dynamic-section-address".into(), format!("{:#x} expected {:#x}", d.dynamic, e.dynamic)));
+    }
+    if d.dynamic_bytes != e.dynamic_bytes {
+        return Some(("dynamic-section-bytes".into(), format!("{} bytes vs {} expected", d.dynamic_bytes.len(), e.dynamic_bytes.len())));
+    }
+    None
 }
